@@ -122,6 +122,13 @@ func Oracle(s tcpx.Spec, o *tcpx.Obs, x *vrt.Exec) (string, []*engine.Finding) {
 			if g("c>p") != cp || g("c<p") != pc || g("p>t") != pt || g("p<t") != tp {
 				add("prom-bytes", "data_bytes c>p=%d c<p=%d p>t=%d p<t=%d, reported c>p=%d c<p=%d p>t=%d p<t=%d", g("c>p"), g("c<p"), g("p>t"), g("p<t"), cp, pc, pt, tp)
 			}
+			// the per-location series carries the same bytes, direction by direction
+			gl := func(dir string) int64 {
+				return int64(promx.Sum(samples, "data_bytes_per_location", map[string]string{"proto": "tcp", "dir": dir}))
+			}
+			if gl("c>p") != cp || gl("c<p") != pc || gl("p>t") != pt || gl("p<t") != tp {
+				add("prom-bytes-per-location", "data_bytes_per_location c>p=%d c<p=%d p>t=%d p<t=%d, reported c>p=%d c<p=%d p>t=%d p<t=%d", gl("c>p"), gl("c<p"), gl("p>t"), gl("p<t"), cp, pc, pt, tp)
+			}
 			probes := 0
 			for _, co := range o.Conns {
 				if co != nil && !co.WantAuth {
